@@ -56,7 +56,15 @@ def main(argv):
     if '--tier' in argv:
         tier = argv[argv.index('--tier') + 1]
     if argv[1] == 'check':
-        return check(argv[2], tier)
+        try:
+            return check(argv[2], tier)
+        except SystemExit:
+            raise
+        except BaseException as e:      # a crash of the machinery is an engine failure, never a verdict
+            import traceback
+            traceback.print_exc()
+            print('ENGINE-FAILURE property=%s %r' % (argv[2], e))
+            return 3
     if argv[1] == 'replay':
         return replay(argv[2])
     if argv[1] == 'all':
